@@ -132,17 +132,16 @@ theorem emitMonth_eq (y : Int) (r : MonthRec) (ipf : Bool) (i : Int) (hi : 1 ≤
   rfl
 
 
-/-- Hours of retained directions with a zero peak: their duration is subtracted from the
-    averaging period although no pulse is emitted. -/
-def zeroPeakDur (r : MonthRec) : Rat := (if r.pcl = 0 then r.dcl else 0) + (if r.phl = 0 then r.dhl else 0)
+/-- Total length of the pulses a retained month emits. -/
+def pulseHours (r : MonthRec) : Rat := (if r.pcl > 0 then r.dcl else 0) + (if r.phl > 0 then r.dhl else 0)
 
 theorem month_energy_core (y : Int) (r : MonthRec) (ipf : Bool) (i : Int) (hi : 1 ≤ i)
     (hp : 0 ≤ r.pcl ∧ 0 ≤ r.phl) (hd : 0 ≤ r.dcl ∧ 0 ≤ r.dhl)
-    (hD : ipf = true → r.dcl + r.dhl ≠ 24 * (mdays y i : Rat))
+    (hD : ipf = true → pulseHours r ≠ 24 * (mdays y i : Rat))
     (hnc : ipf = true → r.dayc = r.dayh → 0 < r.pcl → 0 < r.phl →
       r.dcl ≤ 2 * noonOf (1 + lmh y (i - 1)) r.dayc ∧ r.dhl ≤ 2 * noonOf (1 + lmh y (i - 1)) r.dayh) :
     ∃ rate segs, monthRate r ipf (mdays y i * 24) = .ok rate ∧ emitMonth y r ipf i = .ok segs ∧
-      integral (lmh y (i - 1) : Int) segs = r.cl - r.hl + (if ipf = true then rate * zeroPeakDur r else 0) ∧
+      integral (lmh y (i - 1) : Int) segs = r.cl - r.hl ∧
       lastHour (lmh y (i - 1) : Int) segs = (lmh y i : Int) := by
   have hm := mdays_ge y i
   have hmR : (28 : Rat) ≤ (mdays y i : Rat) := by exact_mod_cast hm
@@ -163,13 +162,16 @@ theorem month_energy_core (y : Int) (r : MonthRec) (ipf : Bool) (i : Int) (hi : 
       simp only [Bool.false_eq_true, false_and, if_false, sub_zero, add_zero]
       rw [hH]; push_cast; field_simp
   | true =>
-    have hne : ((mdays y i * 24 : Int) : Rat) - r.dcl - r.dhl ≠ 0 := by
-      intro h; apply hD rfl; push_cast at h; linarith
-    have hr : monthRate r true (mdays y i * 24) = .ok ((r.cl - r.hl - r.pcl * r.dcl + r.phl * r.dhl) / (((mdays y i * 24 : Int) : Rat) - r.dcl - r.dhl)) := by
+    have hne : ((mdays y i * 24 : Int) : Rat) - (if r.pcl > 0 then r.dcl else 0) - (if r.phl > 0 then r.dhl else 0) ≠ 0 := by
+      intro h; apply hD rfl; unfold pulseHours; push_cast at h; linarith
+    have hr : monthRate r true (mdays y i * 24) = .ok ((r.cl - r.hl - r.pcl * r.dcl + r.phl * r.dhl) /
+        (((mdays y i * 24 : Int) : Rat) - (if r.pcl > 0 then r.dcl else 0) - (if r.phl > 0 then r.dhl else 0))) := by
       simp only [monthRate, pyDiv, hne, if_false, if_true]
     refine ⟨_, _, hr, emitMonth_eq y r true i hi _ hr, ?_⟩
-    · set rate := (r.cl - r.hl - r.pcl * r.dcl + r.phl * r.dhl) / (((mdays y i * 24 : Int) : Rat) - r.dcl - r.dhl) with hrate
-      have key : rate * (24 * (mdays y i : Rat) - r.dcl - r.dhl) = r.cl - r.hl - r.pcl * r.dcl + r.phl * r.dhl := by
+    · set rate := (r.cl - r.hl - r.pcl * r.dcl + r.phl * r.dhl) /
+        (((mdays y i * 24 : Int) : Rat) - (if r.pcl > 0 then r.dcl else 0) - (if r.phl > 0 then r.dhl else 0)) with hrate
+      have key : rate * (24 * (mdays y i : Rat) - (if r.pcl > 0 then r.dcl else 0) - (if r.phl > 0 then r.dhl else 0))
+          = r.cl - r.hl - r.pcl * r.dcl + r.phl * r.dhl := by
         rw [hrate]; push_cast at hne ⊢
         rw [show (24 : Rat) * (mdays y i : Rat) = (mdays y i : Rat) * 24 by ring]
         field_simp
@@ -181,12 +183,11 @@ theorem month_energy_core (y : Int) (r : MonthRec) (ipf : Bool) (i : Int) (hi : 
       refine ⟨?_, e2⟩
       rw [e1, hH]
       clear_value rate
-      simp only [true_and, if_true]
-      unfold zeroPeakDur
+      simp only [true_and, gt_iff_lt] at key ⊢
       rcases lt_or_eq_of_le hp.1 with pc | pc <;> rcases lt_or_eq_of_le hp.2 with ph | ph
-      · simp [pc, ph, ne_of_gt pc, ne_of_gt ph]; linear_combination key
-      · simp [pc, ← ph, ne_of_gt pc]; rw [← ph] at key; linear_combination key
-      · simp [← pc, ph, ne_of_gt ph]; rw [← pc] at key; linear_combination key
-      · simp [← pc, ← ph]; rw [← pc, ← ph] at key; linear_combination key
+      · simp only [pc, ph, if_true] at key ⊢; linear_combination key
+      · simp only [pc, ← ph, if_true, lt_self_iff_false, if_false] at key ⊢; linear_combination key
+      · simp only [← pc, ph, if_true, lt_self_iff_false, if_false] at key ⊢; linear_combination key
+      · simp only [← pc, ← ph, lt_self_iff_false, if_false] at key ⊢; linear_combination key
 
 end GHEVerif.Hybrid
